@@ -21,7 +21,16 @@ def run(ctx, res):
     traverse_rule(ctx, res)
     conv_rule(ctx, res)
     res.assumptions.append("offset additions do not overflow usize (offsets are bounded by the length of the code map)")
-    res.trusted.append("correctness on parsed documents additionally needs C05 (the parser writes exactly this layout)")
+    # "Given a parsed value and its code map": the navigation is right on parsed documents only if the parser writes exactly
+    # the layout the iterators assume (one entry per fragment, pre-order, volume = size of the subtree) under every option
+    # valuation, and the keyed lookups walk the index positions in increasing order
+    from .. import parsercheck
+    from . import C06
+    res.rules_run.append("C11.codemap (the parser's code map is the layout the mapped iterators assume: fragment events of P = fragment events of R, all four option valuations)")
+    parsercheck.apply(ctx, res, ["C05.", "E2."], strict_only=False, rename="C11.codemap")
+    res.rules_run.append("C11.lookup (the key index the keyed mapped lookups walk: push keeps it exact, positions per key sorted - C06.model restricted to push and the queries, C06.sorted insertion cases)")
+    C06.model_rule(ctx, res, rule="C11.lookup", ops={"push", "queries"})
+    C06.sorted_rule(ctx, res, insert_only=True)
 
 
 # ---- helpers -------------------------------------------------------------------------------------------------------
@@ -444,9 +453,8 @@ def frag_rule(ctx, res):
     res.floor(rule, "fragment_cases", 19)
 
 
-def traverse_rule(ctx, res):
+def traverse_rule(ctx, res, rule="C11.traverse"):
     P = ctx.P
-    rule = "C11.traverse"
     try:
         tn = shape.find_inst(P, r"^<json_syntax::Traverse<'_> as std::iter::Iterator>::next$")
         names = [c["path"] for bi, c, t in static.calls(P, tn) if c is not None]
@@ -477,7 +485,7 @@ def traverse_rule(ctx, res):
     except Undecided as e:
         res.violation(rule, rule + "/undecided", "while interpreting: %s" % e)
     from .C03 import subfragments
-    subfragments(ctx, res)
+    subfragments(ctx, res, rule="C03.iter" if rule == "C11.traverse" else rule + ".subfragments")
 
 
 def conv_rule(ctx, res):
